@@ -51,7 +51,7 @@ ADD_ASSIGN = [
             final(self).enums@ == old(self).enums@ + rhs.enums@,
             final(self).aliases@ == old(self).aliases@ + rhs.aliases@,
             final(self).consts@ == old(self).consts@ + rhs.consts@,
-            /*C03 errors kept*/ final(self).errors@ == old(self).errors@ + rhs.errors@,
+            /*C03 C08 errors kept*/ final(self).errors@ == old(self).errors@ + rhs.errors@,
             final(self).import_types@ == old(self).import_types@.union(rhs.import_types@),
             final(self).type_names@ == old(self).type_names@.union(rhs.type_names@),
             final(self).file_name == rhs.file_name, final(self).crate_name == rhs.crate_name, final(self).multi_file == rhs.multi_file,
@@ -92,14 +92,18 @@ IS_EMPTY = [
 COLLECT = [
     ins(A.sig(), '''
         ensures
-            match result {
-                Ok(data) => /*C03: pushed*/ (match data {
+            /*C03: pushed*/ match result {
+                Ok(data) => (match data {
                     RustItem::Struct(s) => final(self).parsed_data.structs@ == old(self).parsed_data.structs@.push(s),
                     RustItem::Enum(e) => final(self).parsed_data.enums@ == old(self).parsed_data.enums@.push(e),
                     RustItem::Alias(a) => final(self).parsed_data.aliases@ == old(self).parsed_data.aliases@.push(a),
                     RustItem::Const(c) => final(self).parsed_data.consts@ == old(self).parsed_data.consts@.push(c),
                 }) && final(self).parsed_data.errors@ == old(self).parsed_data.errors@,
-                Err(error) => /*C03: reported rather than silently omitted*/
+                Err(_) => true,
+            },
+            /*C03 C08: a failed item is reported (recorded as an error of this file) rather than silently omitted*/ match result {
+                Ok(_) => true,
+                Err(error) =>
                     final(self).parsed_data.errors@.len() == old(self).parsed_data.errors@.len() + 1
                     && final(self).parsed_data.errors@.last().error == error
                     && final(self).parsed_data.errors@.drop_last() == old(self).parsed_data.errors@
@@ -118,7 +122,7 @@ SORT_WRAP = ('''fn sort_block(parsed_data: &mut ParsedData)
         sorted_by(final(parsed_data).enums@, |a: RustEnum, b: RustEnum| ord_le(a, b)), final(parsed_data).enums@.to_multiset() == old(parsed_data).enums@.to_multiset(),
         sorted_by(final(parsed_data).aliases@, |a: RustTypeAlias, b: RustTypeAlias| ord_le(a, b)), final(parsed_data).aliases@.to_multiset() == old(parsed_data).aliases@.to_multiset(),
         sorted_by(final(parsed_data).consts@, |a: RustConst, b: RustConst| ord_le(a, b)), final(parsed_data).consts@.to_multiset() == old(parsed_data).consts@.to_multiset(),
-        final(parsed_data).errors@ == old(parsed_data).errors@,
+        /*C03 C08 errors untouched*/ final(parsed_data).errors@ == old(parsed_data).errors@,
 {
 ''', '\n}\n')
 
